@@ -69,3 +69,9 @@ W int w_range(double lb, double ub, double c0, double c1, int what, int in_con, 
     return 0;
   } catch (...) { return 3; }
 }
+// ---- cleaning of a value node before a transfer (ValuePresolverImpl::CleanUpValueNodes calls this on every registered node)
+W int w_cleanup(int size, int alloc, const int* vi, const double* vd, int* oi, double* od, int* ni, int* nd) {
+  try { NodeImg N(size, alloc); for (int i = 0; i < alloc; ++i) { N.vi()[i] = vi[i]; N.vd()[i] = vd[i]; }
+        N.n().CleanUpAndRealloc(); *ni = (int)N.vi().size(); *nd = (int)N.vd().size();
+        for (int i = 0; i < size && i < *ni && i < *nd; ++i) { oi[i] = N.vi()[i]; od[i] = N.vd()[i]; } return 0; } catch (...) { return 3; }
+}
